@@ -56,6 +56,7 @@ def main(tier, seed):
         for p in sorted(d.glob("*.json")):
             corpus.append(json.loads(p.read_text()))
     cases = corpus + [F.gen_scenario(ctx.rng, big=(tier != "quick")) for _ in range(n)]
+    cases += [F.gen_netfix(ctx.rng) for _ in range(max(6, n // 12))]
     for i, c in enumerate(cases):
         c["id"] = i
         # the second in-process run lets real time run ahead of virtual time ("perturbed twin"):
@@ -77,7 +78,7 @@ def main(tier, seed):
                 bad.append((c, "panic differs between processes: %r vs %r" % (a.get("panic"), b.get("panic")), a, b))
             continue
         lines += a["program_lines"] + a["trace_lines"]
-        if a["program_lines"] > 2 * c["nsteps"] + 5:
+        if a["program_lines"] >= c["nsteps"] + 10:
             nontrivial += 1
         if not a["inproc_equal"]:
             bad.append((c, "two runs in one process differ: %s" % json.dumps(a["inproc_diff"])[:600], a, b))
@@ -96,7 +97,7 @@ def main(tier, seed):
                        "server/client with select/timeouts, task spawners with sleeps/intervals, fs and io_uring workloads x "
                        "controller script (crash/bounce/partition/hold); each executed twice in-process and in two OS "
                        "processes; full tracing output of target turmoil + program logs + read_dir and CQE order + result "
-                       "compared; non-trivial = programs logged more than two lines per step on average")
+                       "compared; non-trivial = the programs logged at least 10 lines beyond the per-step markers")
     ctx.cov["samples"] = [{k: v for k, v in c.items() if k != "id"} for c in cases[:2]]
     if bad:
         c, text, a, b = min(bad, key=lambda x: len(json.dumps(x[0])))
